@@ -143,8 +143,38 @@ pub fn gen_arc_string(t: &mut Tape, cfg: &GenCfg) -> Arc<String> {
     Arc::new(gen_string(t, cfg))
 }
 
+/// the Content Type next to a payload; when the payload is flagged as UTF-8 it names a character set one time in three
+/// (what the type *says* about the payload must not change what the flag demands)
+fn gen_content_type(t: &mut Tape, cfg: &GenCfg, flagged: bool) -> Option<Arc<String>> {
+    if flagged && t.chance(1, 3) {
+        const CT: [&str; 6] = ["text/plain; charset=iso-8859-1", "text/plain;charset=us-ascii", "application/json; charset=utf-16", "text/plain; charset=utf-8", "text/html; charset=\"windows-1252\"", "application/octet-stream"];
+        return Some(Arc::new(CT[t.pick(CT.len())].to_string()));
+    }
+    opt(t, |t| gen_arc_string(t, cfg))
+}
+
 pub fn gen_bytes(t: &mut Tape, cfg: &GenCfg) -> Bytes {
     let len = gen_len(t, cfg);
+    // one binary value in ten describes itself: a big-endian u16 / u32 length of what follows, or a length-prefixed text
+    // (values that look like the framing they are put into)
+    if len >= 3 && len <= 65_535 && t.chance(1, 10) {
+        let mut v: Vec<u8> = Vec::with_capacity(len);
+        match t.pick(3) {
+            0 => v.extend_from_slice(&((len - 2) as u16).to_be_bytes()),
+            1 if len >= 5 => v.extend_from_slice(&((len - 4) as u32).to_be_bytes()),
+            _ => {
+                v.extend_from_slice(&((len - 2) as u16).to_be_bytes());
+                while v.len() < len {
+                    v.push(b'a' + (v.len() % 26) as u8);
+                }
+            }
+        }
+        while v.len() < len {
+            v.push(t.u8());
+        }
+        v.truncate(len);
+        return Bytes::from(v);
+    }
     let mut v = Vec::with_capacity(len);
     let mut n = 0;
     while v.len() < len && n < 12 {
@@ -522,7 +552,7 @@ pub fn gen_v5_connect(t: &mut Tape, cfg: &GenCfg) -> Result<v5::Connect, GenErro
             delay_interval: opt(t, |t| t.u32b()),
             payload_is_utf8,
             message_expiry_interval: opt(t, |t| t.u32b()),
-            content_type: opt(t, |t| gen_arc_string(t, cfg)),
+            content_type: gen_content_type(t, cfg, payload_is_utf8 == Some(true)),
             response_topic: try_opt(t, |t| gen_topic_name(t, cfg))?,
             correlation_data: opt(t, |t| gen_bytes(t, cfg)),
             user_properties: gen_user_props(t, cfg),
@@ -733,7 +763,7 @@ fn gen_v5_of_type_inner(t: &mut Tape, cfg: &GenCfg, typ: usize) -> Result<v5::Pa
                 correlation_data: opt(t, |t| gen_bytes(t, cfg)),
                 user_properties: gen_user_props(t, cfg),
                 subscription_id: opt(t, gen_varbyteint),
-                content_type: opt(t, |t| gen_arc_string(t, cfg)),
+                content_type: gen_content_type(t, cfg, payload_is_utf8 == Some(true)),
             };
             P::Publish(v5::Publish {
                 dup: t.flag(),
